@@ -4,7 +4,7 @@
    structural well-formedness wf_iter; deleted entities never appear in an answer.
    Statements only; proofs are `exact <lemma>`; lemmas in Iter/BuildersProofs.v. *)
 From Coq Require Import ZArith List.
-From OVM Require Import Kernel.State Kernel.Ops Iter.Builders Iter.BuildersProofs.
+From OVM Require Import Kernel.State Kernel.Ops Iter.Builders Iter.CursorProofs Iter.BuildersProofs.
 Import ListNotations.
 Local Open Scope nat_scope.
 
@@ -156,6 +156,22 @@ Proof.
   - intros c Ff L c'. exact (cc_live s BU WF c c' Ff L).
 Qed.
 Print Assumptions C01q_no_deleted.
+
+Theorem C01q_boundary_iterators : forall (k : kind) (s : mesh), k <> KM -> bu_exact s -> wf_iter s -> flags_sized s ->
+  bnd_has_inc k s = true -> fbu s = true ->
+  (exists b e, bnd_begin k s = Some b /\
+               b_trace (S (ent_n k s)) (ent_rdel k s) (ent_n k s) (is_boundary k s) b
+               = Some (map Z.of_nat (filter (fun i => negb (ent_deleted k s i) && bdry k s i) (seq 0 (ent_n k s))), e) /\
+               b_valid e = false) /\
+  (forall i, i < ent_n k s -> ent_deleted k s i = false -> (bdry k s i = true <-> bnd_of k s i)).
+Proof. exact boundary_iter_exact. Qed.
+Print Assumptions C01q_boundary_iterators.
+
+(* bc_iter() with face incidences disabled: no guard, out-of-range read (D8) *)
+Theorem C01q_D8_bc_iter_refuted :
+  bu_exact ex_d8 /\ wf_iter ex_d8 /\ fbu ex_d8 = false /\ bnd_has_inc KC ex_d8 = true /\ bnd_begin KC ex_d8 = None.
+Proof. exact D8_bc_iter_undefined. Qed.
+Print Assumptions C01q_D8_bc_iter_refuted.
 
 Example C01q_hypotheses_satisfiable :
   (bu_exact ex_two_tets /\ wf_iter ex_two_tets /\ full_bu ex_two_tets = true) /\
